@@ -150,11 +150,14 @@ Definition enc_rstate (s : rstate) (askers : list bytes) : val :=
 Definition reg_run (c : val) : val :=
   let chains := map vB (vL (vnth 0 c)) in
   let askers := map vB (vL (vnth 1 c)) in
-  VL (snd (fold_left (fun (acc : rstate * list val) o =>
+  (* op tag 11: a transaction that registers keys and fails afterwards (its cache branch is dropped): no effect, code 1 *)
+  VL (snd (fold_left (fun (acc : rstate * list val) ov =>
                         let (s, out) := acc in
-                        let (s', code) := rstep s o in
+                        if vI (vnth 0 ov) =? 11 then (s, out ++ [VL [VI 1; enc_rstate s askers]])
+                        else
+                        let (s', code) := rstep s (dec_rop ov) in
                         (s', out ++ [VL [vNat code; enc_rstate s' askers]]))
-                     (map dec_rop (vL (vnth 2 c))) (rinit chains, []))).
+                     (vL (vnth 2 c)) (rinit chains, []))).
 
 (* ---------- monitors (C16, C17) over the implementation's observations ---------- *)
 Definition rstr (l : list Z) : val := VB (map Z.to_N l).
@@ -330,6 +333,13 @@ Fixpoint rmon_fold (prop : Z) (step : nat) (ops outs : list val) (prev : robs) (
   | ov :: ops', v :: outs' =>
       let o := dec_rop ov in
       let cur := dec_robs v in
+      if vI (vnth 0 ov) =? 11 then
+        (* a dropped transaction leaves the registry alone *)
+        (if Nat.eqb (length (ro_val_ext prev)) (length (ro_val_ext cur)) && Nat.eqb (length (ro_orch_val prev)) (length (ro_orch_val cur))
+            && forallb (fun a => existsb (fun b : bytes * bytes * bytes => beqb (fst (fst a)) (fst (fst b)) && beqb (snd (fst a)) (snd (fst b)) && beqb (snd a) (snd b)) (ro_val_ext prev)) (ro_val_ext cur)
+         then [] else [rviol k_c17_unauth step [VI 11]])
+        ++ rmon_fold prop (S step) ops' outs' cur t chains askers
+      else
       mon_reg_step prop step o prev cur t chains askers
       ++ rmon_fold prop (S step) ops' outs' cur (rtrack_step o prev cur t) chains askers
   | _, _ => []
@@ -374,6 +384,7 @@ Definition reggen_run (c : val) : val :=
   VL (snd (fold_left (fun (acc : rstate * list val) (ov : val) =>
                         let (s, out) := acc in
                         if vI (vnth 0 ov) =? 9 then (rrestart s, out ++ [VL [VI 0; enc_rstate (rrestart s) askers]])
+                        else if vI (vnth 0 ov) =? 11 then (s, out ++ [VL [VI 1; enc_rstate s askers]])
                         else let (s', code) := rstep s (dec_rop ov) in (s', out ++ [VL [vNat code; enc_rstate s' askers]]))
                      (vL (vnth 2 c)) (rinit chains, []))).
 Definition k_c15_keys := rstr [67;49;53;47;108;111;115;116;58;100;101;108;101;103;97;116;101;45;107;101;121;115].                       (* C15/lost:delegate-keys *)
